@@ -5,8 +5,56 @@ namespace c08
     Arena I[3], R[3], M;
     Call K;
     int PL = AFTER;
+    int W = W_SMALL;
+    void set_window(size_t maxbytes)
+    {
+        W = (int)(maxbytes + 640);
+        if ((size_t)W * 2 > NPAGES * PG)
+            mc::harness_error("window too large for the arena");
+    }
+    void restore_window()
+    {
+        W = W_SMALL;
+        for (int i = 0; i < 3; i++)
+        {
+            I[i].wipe();
+            R[i].wipe();
+        }
+        M.wipe();
+    }
     void (*lazy_extra)() = nullptr;
     unsigned long nbad = 0;
+    unsigned long ncalls = 0;
+    std::vector<size_t> large_lengths()
+    {
+        std::vector<size_t> v = {127, 128, 254, 255, 256, 257, 300, 1000};
+        if (mc::thorough())
+            for (size_t x : {32767, 32768, 65535, 65536, 65537, 70000})
+                v.push_back(x);
+        return v;
+    }
+    static void uniq_push(std::vector<size_t> &v, size_t x)
+    {
+        for (size_t y : v)
+            if (y == x)
+                return;
+        v.push_back(x);
+    }
+    std::vector<size_t> large_positions(size_t L)
+    {
+        std::vector<size_t> v;
+        for (size_t x : {(size_t)0, (size_t)1, (size_t)254, (size_t)255, (size_t)256, (size_t)257, L - 1})
+            if (x < L)
+                uniq_push(v, x);
+        return v;
+    }
+    std::vector<size_t> large_ns(size_t L)
+    {
+        std::vector<size_t> v;
+        for (size_t x : {(size_t)0, (size_t)1, (size_t)254, (size_t)255, (size_t)256, (size_t)257, L - 1, L, L + 1})
+            uniq_push(v, x);
+        return v;
+    }
 
     void init_arenas()
     {
@@ -171,7 +219,7 @@ extern "C" void *igc_malloc(size_t n)
     using namespace c08;
     malloc_calls++;
     malloc_last = n;
-    if (malloc_fail || n > 256)
+    if (malloc_fail || n > NPAGES * PG / 2)
         return malloc_ptr = nullptr;
     malloc_ptr = PL == AFTER ? M.hi - n : M.lo;
     return malloc_ptr;
